@@ -58,6 +58,7 @@ def run(tier, seed):
     lit = [(sp, {"rule": "TSLACK", "max_time": 20}) for sp in F.unsorted_absence_specs() + F.same_name_task_specs() + F.double_link_specs() + F.three_level_product_specs()]
     col.merge(stepcheck.explore(lit, MONS, 0, 0, seed=seed))
     col.merge(stepcheck.explore(stepcheck.edited_items(), MONS, 0, 0, seed=seed))  # runs after an earlier run and an in-place model edit
+    col.merge(stepcheck.explore(F.scale_items(("TSLACK", "SPT")), MONS, 0, 0, seed=seed))  # medium-sized models (10-14 tasks / workers / machines), long absence lists
     meta = {
         "level": "model_checking",
         "rule": "3-task FS/SS(/FF) workflows and 4 parallel tasks x worker layouts (one/two pooled, mixed, solo, fixed-ID lists incl. empty) x task rules "
